@@ -361,6 +361,12 @@ Disjoint == done \/ (Stmt.T \cap Stmt.C = {} /\ Stmt.T \cap Stmt.F = {} /\ Stmt.
 ConsistentLaw == /\ {q[2] : q \in Stmt.CQ} = Stmt.C
                  /\ {IF q[1] = "" THEN q[2] ELSE q[1] \o "." \o q[2] : q \in Stmt.TQ} = Stmt.T
 Consistent == done \/ ConsistentLaw
+\* Far contexts: a query placed where the tree is deep although the text is flat or the nesting is within the parser's
+\* limit - an operator chain is as deep as it is long and its FIRST operand is the deepest node; every level of a
+\* derived table is several levels of tree.  The names of the composition are the query's plus the context's own
+\* (NestedIncluded with a context of arbitrary size); the driver wraps every SELECT composition in each of them.
+FarContexts == {"first-conjunct-before-long-chain", "first-join-condition-conjunct-before-long-chain", "innermost-of-deep-derived-tables"}
+FarLength == [c \in FarContexts |-> IF c = "innermost-of-deep-derived-tables" THEN 40 ELSE 130]
 NestedIncluded == (~done /\ Len(path) > 1) =>
                      LET inner == Build(path, 2, slot) IN inner.T \subseteq Stmt.T /\ inner.C \subseteq Stmt.C /\ inner.F \subseteq Stmt.F
 =============================================================================
